@@ -3,8 +3,13 @@ package lib
 // Correspondence driver for C08 (registration expiry).  Replays operation
 // histories on the real RegisteredDecoys through the RegistrationManager
 // entry points that the station uses, and records projected observables after
-// every operation.  Ages are realised by shifting DecoyTimeout.registrationTime
-// (no sleeping).  Contains no assertions about conjure.
+// every operation.  Contains no assertions about conjure.
+//
+// Time: built with the `faketime` tag (VERIF_C08_MODE=fake) the Go runtime's clock is
+// frozen and only moves when the driver advances it (clock_fake_test.go), so every
+// age is exact to the nanosecond.  Without the tag (VERIF_C08_MODE=shift) ages are
+// realised by shifting DecoyTimeout.registrationTime in whole seconds, with half a
+// second of slack around a sweep.
 
 import (
 	"crypto/sha256"
@@ -15,6 +20,7 @@ import (
 	"net"
 	"os"
 	"sort"
+	"sync/atomic"
 	"testing"
 	"time"
 
@@ -33,6 +39,7 @@ type c08op struct {
 	T  int    `json:"t"`  // transport: 0 min 1 obfs4 2 prefix 3 dtls 4 (not enabled)
 	P  int    `json:"p"`  // phantom id (even: IPv4, odd: IPv6)
 	D  int64  `json:"d"`  // advance: seconds
+	NS int64  `json:"ns"` // advance: additional nanoseconds (fake clock only)
 }
 
 type c08case struct {
@@ -42,13 +49,17 @@ type c08case struct {
 }
 
 type c08obs struct {
-	Err       bool     `json:"err"`     // the operation returned an error
-	Ret       int      `json:"ret"`     // tracknx: 1 if it reported "already tracked"; count: the count
-	Panic     string   `json:"panic"`   // recovered panic, if any
-	Tracked   [][4]int `json:"tracked"` // (s,t,p,valid) for every alphabet key for which RegistrationExists
-	Matched   [][3]int `json:"matched"` // (s,t,p) returned by GetRegistrations over the alphabet phantoms
-	Counts    []int    `json:"counts"`  // CountRegistrations per alphabet phantom
-	Total     int      `json:"total"`   // TotalRegistrations
+	Err       bool     `json:"err"`        // the operation returned an error
+	Ret       int      `json:"ret"`        // tracknx: 1 if it reported "already tracked"; count: the count
+	Panic     string   `json:"panic"`      // recovered panic, if any
+	Tracked   [][5]int `json:"tracked"`    // (s,t,p,valid,regCount) for every alphabet key for which RegistrationExists
+	NewNotif  [][3]int `json:"new_notif"`  // registerForDetector calls made during the operation
+	UpdNotif  [][3]int `json:"upd_notif"`  // updateInDetector calls made during the operation
+	ExpValid  int64    `json:"exp_valid"`  // decrease of RegistrationStats.activeRegistrations during the operation
+	StatDelta int64    `json:"stat_delta"` // decrease of Stat().activeRegistrations during the operation
+	Matched   [][3]int `json:"matched"`    // (s,t,p) returned by GetRegistrations over the alphabet phantoms
+	Counts    []int    `json:"counts"`     // CountRegistrations per alphabet phantom
+	Total     int      `json:"total"`      // TotalRegistrations
 	NTimeouts int      `json:"ntimeouts"`
 	NPhantoms int      `json:"nphantoms"` // len(decoys): phantoms with an (inner) map
 	UnknownID int      `json:"unknown_id"`
@@ -99,10 +110,12 @@ func c08reg(s, t, p int) *DecoyRegistration {
 	}
 }
 
-func c08manager() *RegistrationManager {
+type c08notif struct{ newR, updR []*DecoyRegistration }
+
+func c08manager(n *c08notif) *RegistrationManager {
 	rd := NewRegisteredDecoys()
-	rd.registerForDetector = func(*DecoyRegistration) {}
-	rd.updateInDetector = func(*DecoyRegistration) {}
+	rd.registerForDetector = func(d *DecoyRegistration) { n.newR = append(n.newR, d) }
+	rd.updateInDetector = func(d *DecoyRegistration) { n.updR = append(n.updR, d) }
 	rm := &RegistrationManager{
 		RegConfig:         &RegConfig{},
 		RegistrationStats: newRegistrationStats(),
@@ -126,8 +139,18 @@ func c08shift(rd *RegisteredDecoys, d time.Duration) {
 	rd.m.Unlock()
 }
 
-func c08run(c c08case) (res c08res) {
-	rm := c08manager()
+func c08key(d *DecoyRegistration, c c08case) [3]int {
+	for _, k := range c.Keys {
+		if c08tt[k[1]] == d.Transport && d.PhantomIp.Equal(c08phantom(k[2])) && string(d.Keys.SharedSecret) == string(c08secret(k[0])) {
+			return k
+		}
+	}
+	return [3]int{-1, -1, -1}
+}
+
+func c08run(c c08case, fake bool) (res c08res) {
+	var notif c08notif
+	rm := c08manager(&notif)
 	rd := rm.registeredDecoys
 	res.TimeoutUnused = int64(rd.timeoutUnused)
 	res.TimeoutActive = int64(rd.timeoutActive)
@@ -153,6 +176,9 @@ func c08run(c c08case) (res c08res) {
 	start := time.Now()
 	for _, o := range c.Ops {
 		var ob c08obs
+		notif = c08notif{}
+		act0 := atomic.LoadInt64(&rm.RegistrationStats.activeRegistrations)
+		stat0 := atomic.LoadInt64(&Stat().activeRegistrations)
 		func() {
 			defer func() {
 				if r := recover(); r != nil {
@@ -186,11 +212,19 @@ func c08run(c c08case) (res c08res) {
 				}
 				rm.MarkActive(d)
 			case "advance":
-				c08shift(rd, time.Duration(o.D)*time.Second)
+				if fake {
+					c08clockAdvance(o.D*int64(time.Second) + o.NS)
+				} else {
+					c08shift(rd, time.Duration(o.D)*time.Second)
+				}
 			case "sweep":
-				c08shift(rd, -c08slack)
-				rm.RemoveOldRegistrations()
-				c08shift(rd, c08slack)
+				if fake {
+					rm.RemoveOldRegistrations()
+				} else {
+					c08shift(rd, -c08slack)
+					rm.RemoveOldRegistrations()
+					c08shift(rd, c08slack)
+				}
 			case "lookup":
 				ob.Ret = len(rm.GetRegistrations(c08phantom(o.P)))
 			case "count":
@@ -203,7 +237,17 @@ func c08run(c c08case) (res c08res) {
 					ob.Panic += " observe:" + fmt.Sprint(r)
 				}
 			}()
-			ob.Tracked = [][4]int{}
+			ob.ExpValid = act0 - atomic.LoadInt64(&rm.RegistrationStats.activeRegistrations)
+			ob.StatDelta = stat0 - atomic.LoadInt64(&Stat().activeRegistrations)
+			ob.NewNotif = [][3]int{}
+			ob.UpdNotif = [][3]int{}
+			for _, d := range notif.newR {
+				ob.NewNotif = append(ob.NewNotif, c08key(d, c))
+			}
+			for _, d := range notif.updR {
+				ob.UpdNotif = append(ob.UpdNotif, c08key(d, c))
+			}
+			ob.Tracked = [][5]int{}
 			ob.Matched = [][3]int{}
 			ob.Counts = []int{}
 			for _, k := range c.Keys {
@@ -212,7 +256,7 @@ func c08run(c c08case) (res c08res) {
 					if r.Valid {
 						v = 1
 					}
-					ob.Tracked = append(ob.Tracked, [4]int{k[0], k[1], k[2], v})
+					ob.Tracked = append(ob.Tracked, [5]int{k[0], k[1], k[2], v, int(r.regCount)})
 				}
 			}
 			for _, p := range c.Phantoms {
@@ -244,7 +288,7 @@ func c08run(c c08case) (res c08res) {
 		res.Obs = append(res.Obs, ob)
 	}
 	// real time that leaked into the ages; must stay well inside the slack
-	res.Slow = time.Since(start) > c08slack/2
+	res.Slow = !fake && time.Since(start) > c08slack/2
 	return res
 }
 
@@ -257,10 +301,29 @@ func TestVerifC08Registry(t *testing.T) {
 	if err := json.Unmarshal(raw, &cases); err != nil {
 		t.Fatal(err)
 	}
+	fake := os.Getenv("VERIF_C08_MODE") == "fake"
+	if fake {
+		// self-test of the fake clock: frozen while we compute, exact when advanced
+		if !c08clockIsFake {
+			t.Fatal("faketime build tag is not in effect")
+		}
+		t0 := time.Now()
+		x := 0
+		for i := 0; i < 2000000; i++ {
+			x += i
+		}
+		if time.Since(t0) != 0 || x < 0 {
+			t.Fatalf("fake clock moved by itself (%v)", time.Since(t0))
+		}
+		c08clockAdvance(12345)
+		if time.Since(t0) != 12345 {
+			t.Fatalf("fake clock advanced by %v instead of 12345ns", time.Since(t0))
+		}
+	}
 	res := make([]c08res, len(cases))
 	for i, c := range cases {
 		for try := 1; try <= 6; try++ {
-			res[i] = c08run(c)
+			res[i] = c08run(c, fake)
 			res[i].Tries = try
 			if !res[i].Slow {
 				break
